@@ -386,6 +386,23 @@ func buildArg(a Arg, handles []value.Value) value.Value {
 	return value.Int(0)
 }
 
+// hostRecovers: the host iterates a lazy result after the evaluation call has returned. A closure
+// that panics then (a panicking host function in a stage that does not convert panics) unwinds into
+// the host's own loop; a host that protects itself sees a failure like any other. All harnesses do
+// so except C05's, whose subject is exactly which faults reach the host as panics.
+var hostRecovers = true
+
+func hostConsume(b *strings.Builder, v value.Value, st funcGen.Stack[value.Value], lim int) (err error) {
+	if hostRecovers {
+		defer func() {
+			if rec := recover(); rec != nil {
+				err = fmt.Errorf("panic while the host consumed the result: %v", rec)
+			}
+		}()
+	}
+	return canon(b, v, st, lim, 0)
+}
+
 func (r *runner) doOp(op *Op, handles []value.Value) (out Outcome) {
 	out.Y0 = simrt.Mark("op-start")
 	out.T0 = simrt.SimNow()
@@ -455,7 +472,7 @@ func (r *runner) doOp(op *Op, handles []value.Value) (out Outcome) {
 		if op.Consume > 0 {
 			lim = op.Consume
 		}
-		if err := canon(&b, v, st, lim, 0); err != nil {
+		if err := hostConsume(&b, v, st, lim); err != nil {
 			out.Err = err.Error()
 			break
 		}
@@ -473,7 +490,7 @@ func (r *runner) doOp(op *Op, handles []value.Value) (out Outcome) {
 			break
 		}
 		var b strings.Builder
-		if err := canon(&b, v, funcGen.NewEmptyStack[value.Value](), -1, 0); err != nil {
+		if err := hostConsume(&b, v, funcGen.NewEmptyStack[value.Value](), -1); err != nil {
 			out.Err = err.Error()
 			break
 		}
